@@ -114,12 +114,22 @@ func (self Value) GetByPath(pathes ...Path) Value {
 	var err error
 
 	for i, path := range pathes {
+		// the path item must fit both the type of the node it is applied to and its descriptor
+		if msg := pathMismatch(i, path.t, tt); msg != "" {
+			return errValue(meta.ErrUnsupportedType, msg, nil)
+		}
+		if desc == nil || (tt == thrift.STRUCT && desc.Struct() == nil) || (tt != thrift.STRUCT && desc.Elem() == nil) {
+			return errValue(meta.ErrDismatchType, fmt.Sprintf("%dth path: descriptor does not describe a %s node", i, tt), nil)
+		}
 		switch path.t {
 		case PathFieldId:
 			id := path.id()
+			f := desc.Struct().FieldById(id)
+			if f == nil {
+				return errValue(meta.ErrUnknownField, fmt.Sprintf("field id %d is not defined in IDL", id), nil)
+			}
 			tt, start, err = searchFieldId(&p, id)
-			desc = desc.Struct().FieldById(id).Type()
-			isList = tt == thrift.LIST
+			desc = f.Type()
 		case PathFieldName:
 			id := path.str()
 			f := desc.Struct().FieldByKey(id)
@@ -128,8 +138,8 @@ func (self Value) GetByPath(pathes ...Path) Value {
 			}
 			tt, start, err = searchFieldName(&p, id, f)
 			desc = f.Type()
-			isList = tt == thrift.LIST
 		case PathIndex:
+			isList = tt == thrift.LIST
 			tt, start, err = searchIndex(&p, path.int(), isList)
 			desc = desc.Elem()
 		case PathStrKey:
